@@ -22,6 +22,8 @@ CELL_CODES = ["Nemeth", "UEB", "CMU", "Vietnam"]
 TEXT_CODES = ["LaTeX", "ASCIIMath"]
 LANG = {"CMU": "es", "Vietnam": "vi"}
 STYLES = ["FirstChar", "EndPoints", "All"]
+QUOTED = ['<math><mtext>"max"</mtext><mo>=</mo><mi>x</mi><mo>+</mo><mn>12</mn></math>', "<math><mi>f</mi><mo>'</mo><mo>(</mo><mi>b</mi><mo>)</mo><mo>=</mo><msup><mi>b</mi><mn>2</mn></msup></math>",
+          "<math><mtext>'a' and \"b\"</mtext></math>", "<math><msup><mi>b</mi><mn>2</mn></msup><mo>-</mo><mn>4</mn><mi>a</mi><mi>c</mi></math>"]
 VARIANTS = ["", "bold", "italic", "script", "fraktur", "double-struck", "sans-serif", "bold-italic", "monospace"]
 
 
@@ -64,7 +66,7 @@ def run(tier):
     exprs = rng.sample(corpus, min(n_expr, len(corpus)))
     scripts = []
     for code in CELL_CODES + TEXT_CODES:
-        cases = [(e, "suite") for e in exprs]
+        cases = [(e, "suite") for e in exprs + QUOTED]
         for cp in sweep_chars(code, random.Random(C.seed() + len(code)), n_chars):
             ch = f"&#x{cp:X};"
             host = rng.choice(["mi", "mo", "mtext", "mn"]) if tier == "quick" else None
@@ -90,6 +92,9 @@ def run(tier):
                 meta.append(("hl",))
                 ops.append({"op": "braille", "id": "no-such-id"})
                 meta.append(("hl",))
+                for k in rng.sample(range(12), 3 if origin == "suite" else 1):
+                    ops.append({"op": "braille", "id": "${ID:%d}" % k})
+                    meta.append(("hlid",))
             scripts.append({"id": f"{code}:{b}", "ops": ops, "meta": meta, "code": code, "isolate_on_panic": True})
     results = C.run_mcv([{"id": s["id"], "ops": s["ops"], "isolate_on_panic": True} for s in scripts], wd, timeout_ms=60000)
     events, back = [], []
@@ -115,13 +120,19 @@ def run(tier):
             if m[0] == "off":
                 cur["off"] = (oi, rr)
                 cur["hl"] = []
+            elif m[0] == "hlid":
+                if "off" in cur and cur["off"][1]["r"] == "ok":
+                    events.append({"kind": "cellhl" if code in CELL_CODES else "texthl", "res": rr["r"], "visible": cur["visible"],
+                                   "out": C.cps(rr["v"]) if rr["r"] == "ok" else [], "undef": cur["undef"], "hlSame": 1, "allowed8": allowed8,
+                                   "off": C.cps(cur["off"][1]["v"])})
+                    back.append((si, oi, cur["expr"], cur["origin"]))
             else:
                 cur["hl"].append(rr)
                 if len(cur["hl"]) == 2 and "off" in cur:
                     ooi, orr = cur["off"]
                     same = 1 if all(h["r"] == orr["r"] and (h["r"] != "ok" or h["v"] == orr["v"]) for h in cur["hl"]) else 0
                     events.append({"kind": "cell" if code in CELL_CODES else "text", "res": orr["r"], "visible": cur["visible"],
-                                   "out": C.cps(orr["v"]) if orr["r"] == "ok" else [], "undef": cur["undef"], "hlSame": same, "allowed8": allowed8})
+                                   "out": C.cps(orr["v"]) if orr["r"] == "ok" else [], "undef": cur["undef"], "hlSame": same, "allowed8": allowed8, "off": []})
                     back.append((si, ooi, cur["expr"], cur["origin"]))
     rejects, _, _ = C.validate_trace("Trace_Braille", "Trace_Braille.cfg", events, wd, timeout=2400, heap="10g")
     verdict = C.Verdict(PID)
@@ -155,7 +166,7 @@ def run(tier):
 
 def selftest(tier):
     wd = C.workdir("c07_self")
-    base = {"kind": "cell", "res": "ok", "visible": 1, "out": C.cps("⠭⠬⠂"), "undef": [], "hlSame": 1, "allowed8": []}
+    base = {"kind": "cell", "res": "ok", "visible": 1, "out": C.cps("⠭⠬⠂"), "undef": [], "hlSame": 1, "allowed8": [], "off": []}
     ev = [base, dict(base, out=C.cps("⠭L⠂")), dict(base, out=C.cps("⠭⣀")), dict(base, hlSame=0), dict(base, out=C.cps("⠭℧"), undef=[0x2127])]
     rej, _, _ = C.validate_trace("Trace_Braille", "Trace_Braille.cfg", ev, wd)
     if [i for i, _ in rej] != [2, 3, 4]:
